@@ -100,6 +100,13 @@ EXTRA_ENGINES = [
     {"name": "cdriver", "path": "/verif/cdriver", "serves_properties": ["C18"], "kind_free_text": "C client compiled with clang -fsanitize=address,undefined against libredirectionio.a (thorough tier)"},
 ]
 
+CHECKS.update({
+ "C07": ("panic / abort runtime monitor: catch_unwind + recording panic hook around every public entry point inside worker subprocesses (exit status observes aborts and stack overflows, BEGIN/END attribution, confirmation alone, wall-clock watchdog => inconclusive); FFI null patterns in the FFI driver under the audit allocator and Miri",
+         "Grammar-generated hostile inputs per entry-point family (rule JSON with hostile marker regexes / transformer options / header kinds / ip, date, time, weekday garbage / examples with bad urls, ips, dates / mailto:, //host, relative targets; matching rules with multi-byte captures and hostile transformer chains; requests, logs with hostile Forwarded headers; body filters on arbitrary bytes x chunking x valid, truncated and corrupted gzip/deflate/br; the four analyses in both entry-point families through their JSON inputs; Buffer methods; deep / long documents on a 256 KiB stack) plus byte-level mutation of serialised rule JSON drive the real entry points; every panic (source location + message) and every process death is a violation unless it matches a listed known finding. The documented-null patterns and hostile C strings of every extern C function run in the FFI driver (a panic there aborts the process and is observed as such).",
+         "Release profile only (the shipping profile; the dev-profile recursion depth F10 is not exercised); termination is bounded by logical step bounds owned by C16 (tokens) and C19 (hops) plus a wall-clock watchdog whose firing is inconclusive.",
+         "5/C07"),
+})
+
 PENDING_REASON = "monitor under construction in this session; not claimed until its check is registered"
 
 def main():
@@ -122,7 +129,7 @@ def main():
                 "thorough_cmd": f"./check {pid} thorough",
                 "evidence_file": f"/verif/evidence/{pid}.json",
                 "replay_cmd_template": f"./check {pid} --replay {{path}}",
-                "engine": "ffi-driver" if pid == "C18" else "rio-mon",
+                "engine": "ffi-driver" if pid == "C18" else ("rio-mon + ffi-driver" if pid == "C07" else "rio-mon"),
                 "level_claimed": {"category": "exploration", "text": text, "design_ref": f"DESIGN.md section {ref}"},
                 "level_note": note,
                 "technique": tech,
